@@ -141,6 +141,12 @@ pub fn verif_debug_ext(e: LdapUrlExt) -> (r: String) { unimplemented!() }
 //@end
 pub open spec fn kind(e: LdapUrlExt) -> int { match e { LdapUrlExt::Bindname(_) => 0, LdapUrlExt::XBindpw(_) => 1, LdapUrlExt::Credentials(_) => 2, LdapUrlExt::SaslMech(_) => 3, LdapUrlExt::StartTLS => 4, LdapUrlExt::Unknown(_) => 5 } }
 pub open spec fn same_variant(a: LdapUrlExt, b: LdapUrlExt) -> bool { kind(a) == kind(b) }
+// `a == b` / `a != b` on LdapUrlExt values in lifted text mean the lifted `eq` above
+impl<'a> vstd::std_specs::cmp::PartialEqSpecImpl for LdapUrlExt<'a> {
+    open spec fn obeys_eq_spec() -> bool { true }
+    open spec fn eq_spec(&self, other: &LdapUrlExt<'a>) -> bool { same_variant(*self, *other) }
+}
+impl<'a> PartialEq for LdapUrlExt<'a> { fn eq(&self, other: &LdapUrlExt<'a>) -> (r: bool) { ldapurlext_eq(self, other) } }
 
 // `impl Hash for LdapUrlExt`: what is fed to the hasher is a word that depends on the kind only and differs between kinds,
 // i.e. Hash is consistent with the PartialEq above (k1 == k2 ==> hash(k1) == hash(k2)) -- HashSet's requirement
@@ -387,7 +393,6 @@ pub proof fn theorem_ext_round_trip(crit: bool, id: Seq<char>, val: Option<Seq<c
 //@ sub "&id[..1] == \"!\"" => "verif_first_is(id, \"!\")" count=*
 //@ sub "&id[1..]" => "verif_skip1(id)" count=*
 //@ sub "format!(\n                                \"{:?}\",\n                                LdapUrlExt::Unknown(ext.into())\n                            )" => "verif_debug_ext(LdapUrlExt::Unknown(ext.into()))"
-//@ sub "ext != LdapUrlExt::Unknown(\"\".into())" => "!ldapurlext_eq(&ext, &LdapUrlExt::Unknown(\"\".into()))"
 //@ ret r
 //@ insert entry
     broadcast use axiom_str_eq_is_content_eq;
